@@ -79,4 +79,15 @@ def specF (f : Fmt) (t : List Char) (f0 : Mpf.F) : IStream × Option Mpf.F × Bo
   | (i, some s) => (i, some (MpfStr.set_str f0.prec f0 10 (s.map Char.toNat)).2,
                     decide ((MpfStr.set_str f0.prec f0 10 (s.map Char.toNat)).1 ≠ 0))
 
+/-! ## round trips -/
+
+/-- the condition under which an input stream with flags `fi` reads back what an output stream with flags `fo` writes:
+    EITHER basefield of `fi` names (with exactly one bit) the base `fo` prints in, and `fo` is not a hex stream with
+    showbase (a hex input stream does not accept the "0x" prefix: it reads the 0 and stops at the x),
+    OR `fi` has no single basefield bit (the base is detected from a 0x / 0X / 0 prefix) and `fo` prints decimal or
+    prints with showbase (hex / octal text without a prefix is taken for decimal). -/
+def ReadsBack (fo fi : Fmt) : Prop :=
+  (fi.base? = some fo.outBase ∧ ¬ (fo.showbase = true ∧ fo.hexOnly = true)) ∨
+  (fi.base? = none ∧ (fo.outBase = 10 ∨ fo.showbase = true))
+
 end Mpir.CxxIo
